@@ -156,6 +156,10 @@ def pop3d_jobs(ck, thorough):
     for files in pops[1:4]:
         add(files, [(b"DELE", b"1"), (b"LIST", b""), (b"QUIT", b"")], root=1, tag="root")
         add(files, [], root=1, tag="root")
+        # invoked by uid 0 all the same: only the effective uid lowered (a login helper that calls seteuid / setreuid, not setuid)
+        for cred in ("e", "r"):
+            add(files, [(b"DELE", b"1"), (b"LIST", b""), (b"QUIT", b"")], root=1, tag="root" + cred)
+            jobs[-1]["cred"] = cred
     return jobs
 
 
@@ -205,7 +209,7 @@ def popup_jobs(ck, thorough):
 # --------------------------------------------------------------------------------------------
 def job_to_json(kind, job):
     if kind == "d":
-        return {"kind": "d", "root": job["root"],
+        return {"kind": "d", "root": job["root"], "cred": job.get("cred", ""),
                 "files": [{"d": f["d"], "n": list(f["n"]), "x": list(f["x"]), "mt": f["mt"]} for f in job["files"]],
                 "cmds": [["XRM", a] if v == "XRM" else [list(v), list(a)] for v, a in job["cmds"]]}
     return {"kind": "p", "host": list(job["host"]), "ex": job["ex"], "cmds": [[list(v), list(a)] for v, a in job["cmds"]]}
@@ -215,7 +219,7 @@ def job_from_json(j):
     if j["kind"] == "d":
         t0 = U.base_mtime()
         mts = sorted(set(f["mt"] for f in j["files"]))
-        return "d", {"root": j["root"], "tag": "replay",
+        return "d", {"root": j["root"], "tag": "replay", "cred": j.get("cred", ""),
                      "files": [{"d": f["d"], "n": bytes(f["n"]), "x": bytes(f["x"]), "mt": t0 + 10 * mts.index(f["mt"])} for f in j["files"]],
                      "cmds": [("XRM", c[1]) if c[0] == "XRM" else (bytes(c[0]), bytes(c[1])) for c in j["cmds"]]}
     return "p", {"host": bytes(j["host"]), "ex": j["ex"], "cmds": [(bytes(v), bytes(a)) for v, a in j["cmds"]]}
